@@ -33,6 +33,7 @@ type c15Snapshot struct {
 	method, path, query                            string
 	ifNoneMatch, ifModifiedSince, rng, ifRange, ae string
 	other, added                                   string
+	addedAll                                       []string
 }
 
 const (
@@ -40,6 +41,15 @@ const (
 	c15Err
 	c15Timeout
 )
+
+func c15Has(vs []string, v string) bool {
+	for _, x := range vs {
+		if x == v {
+			return true
+		}
+	}
+	return false
+}
 
 func Harness_C15_proxy() {
 	// ---- configuration ----
@@ -74,6 +84,13 @@ func Harness_C15_proxy() {
 			hdr["If-Range"] = []string{cIfRange}
 		}
 	}
+	// a client header / an upstream response header with the same name as a configured one: the
+	// configured header is ADDED, the original value still crosses the proxy
+	clientSendsConfigured := verifBool("clientSendsConfiguredHeader")
+	if clientSendsConfigured {
+		hdr["X-Req"] = []string{"c"}
+	}
+	upstreamSendsConfigured := verifBool("upstreamSendsConfiguredHeader")
 	if verifBool("hasAcceptEncoding") {
 		cAE = "br"
 		hdr["Accept-Encoding"] = []string{cAE}
@@ -98,6 +115,7 @@ func Harness_C15_proxy() {
 		snap.ifNoneMatch, snap.ifModifiedSince = r.Header.Get("If-None-Match"), r.Header.Get("If-Modified-Since")
 		snap.rng, snap.ifRange, snap.ae = r.Header.Get("Range"), r.Header.Get("If-Range"), r.Header.Get("Accept-Encoding")
 		snap.other, snap.added = r.Header.Get("X-Other"), r.Header.Get("X-Req")
+		snap.addedAll = append([]string{}, r.Header["X-Req"]...)
 		switch outcome {
 		case c15Err:
 			return hes.New("upstream down")
@@ -120,6 +138,9 @@ func Harness_C15_proxy() {
 		c.SetHeader("Etag", `"v1"`)
 		c.SetHeader("Content-Length", "4")
 		c.SetHeader("X-Up", "up")
+		if upstreamSendsConfigured {
+			c.SetHeader("X-Resp", "u")
+		}
 		if body != nil {
 			c.BodyBuffer = bytes.NewBuffer(body)
 		}
@@ -136,7 +157,11 @@ func Harness_C15_proxy() {
 	} else {
 		verifAssert("C15.path-unchanged", snap.path == "/p")
 	}
-	verifAssert("C15.other-headers-forwarded-and-configured-added", snap.other == "o" && snap.added == "1")
+	if clientSendsConfigured {
+		verifAssert("C15.other-headers-forwarded-and-configured-added", snap.other == "o" && len(snap.addedAll) == 2 && c15Has(snap.addedAll, "c") && c15Has(snap.addedAll, "1"))
+	} else {
+		verifAssert("C15.other-headers-forwarded-and-configured-added", snap.other == "o" && snap.added == "1" && len(snap.addedAll) == 1)
+	}
 	if status == cache.StatusFetching {
 		verifAssert("C15.fetching-withholds-validators", snap.ifNoneMatch == "" && snap.ifModifiedSince == "")
 		verifAssert("C15.fetching-withholds-range", snap.rng == "" && snap.ifRange == "")
@@ -167,7 +192,11 @@ func Harness_C15_proxy() {
 	verifAssert("C15.ok-continues-once", err == nil && nextCalled == 1)
 	resp := getHTTPResp(c)
 	verifAssert("C15.response-object", resp != nil && resp.StatusCode == code)
-	verifAssert("C15.response-headers", resp.Header.Get("X-Up") == "up" && resp.Header.Get("Etag") == `"v1"` && resp.Header.Get("X-Resp") == "2" && resp.Header.Get("Content-Length") == "")
+	if upstreamSendsConfigured {
+		verifAssert("C15.response-headers", resp.Header.Get("X-Up") == "up" && resp.Header.Get("Etag") == `"v1"` && len(resp.Header["X-Resp"]) == 2 && c15Has(resp.Header["X-Resp"], "u") && c15Has(resp.Header["X-Resp"], "2") && resp.Header.Get("Content-Length") == "")
+	} else {
+		verifAssert("C15.response-headers", resp.Header.Get("X-Up") == "up" && resp.Header.Get("Etag") == `"v1"` && resp.Header.Get("X-Resp") == "2" && len(resp.Header["X-Resp"]) == 1 && resp.Header.Get("Content-Length") == "")
+	}
 	verifAssert("C15.response-body", string(resp.RawBody) == string(body))
 	name, minLength, _ := s.GetCompress()
 	verifAssert("C15.server-compress-settings-attached", resp.CompressSrv == name && resp.CompressMinLength == minLength)
